@@ -42,11 +42,25 @@ static yk_thr_fn yk_thr[YK_NT];
 void yk_thread(uint32_t i, void* fn) { if (i < YK_NT) yk_thr[i] = (yk_thr_fn)fn; }
 uint32_t yk_thread_done(uint32_t i) { return i < YK_NT ? yk_done[i] : 0; }
 uint32_t yk_ctx_of_finish(uint32_t i) { return i < YK_NT ? yk_fin_ctx[i] : 0; }
-static void yk_one_context(uint32_t t)
+uint8_t yk_allow[YK_MAXCTX];   /* optional schedule template: threads allowed in context c (bit mask; 0 = any) */
+void yk_allow_ctx(uint32_t c, uint32_t mask) { if (c < YK_MAXCTX) yk_allow[c] = (uint8_t)mask; }
+static void yk_one_context(uint32_t t, uint32_t allow)
 {
     yk_cur = (int32_t)t;
     yk_hooks_in_ctx = 0;
-    int r = yk_thr[t]();
+    int r = 0;
+    /* explicit dispatch: with a constant template mask symex drops the threads that cannot run here */
+    if (t == 0 && (allow & 1u)) r = yk_thr[0]();
+#if YK_NT > 1
+    else if (t == 1 && (allow & 2u)) r = yk_thr[1]();
+#endif
+#if YK_NT > 2
+    else if (t == 2 && (allow & 4u)) r = yk_thr[2]();
+#endif
+#if YK_NT > 3
+    else if (t == 3 && (allow & 8u)) r = yk_thr[3]();
+#endif
+    else { YK_ASSUME(0); }
     yk_cur = -1;
     if (yk_nctx < YK_MAXCTX) { yk_sched[yk_nctx] = (uint8_t)t; yk_ctx_len[yk_nctx] = yk_hooks_in_ctx; yk_ctx_fin[yk_nctx] = (r && !yk_parked[t]) ? 0 : (yk_parked[t] ? 2 : 1); }
     if (!r || yk_parked[t]) { yk_done[t] = 1; yk_fin_ctx[t] = yk_nctx; }
@@ -62,13 +76,14 @@ void yk_run_threads(uint32_t ctx)
         for (uint32_t i = 0; i < YK_NT; i++) left += yk_done[i] ? 0 : 1;
         if (left == 0) break;
         uint32_t t = nondet_uint8();
-        YK_ASSUME(t < YK_NT && !yk_done[t]);
-        yk_one_context(t);
+        uint32_t allow = yk_allow[c] ? yk_allow[c] : 0xffu;
+        YK_ASSUME(t < YK_NT && !yk_done[t] && ((allow >> t) & 1u));
+        yk_one_context(t, allow);
     }
     yk_draining = 1;
     for (uint32_t r = 0; r < YK_DRAIN_ROUNDS; r++)
         for (uint32_t t = 0; t < YK_NT; t++)
-            if (!yk_done[t]) yk_one_context(t);
+            if (!yk_done[t]) yk_one_context(t, 1u << t);
     for (uint32_t t = 0; t < YK_NT; t++)
         YK_ASSERT(yk_done[t], "liveness: a thread did not finish in the fair continuation (deadlock / lock left held)");
     yk_draining = 0;
